@@ -167,6 +167,9 @@ struct Env
   double r_double;
   bool r_bool;
   int* r_ptr;
+  int** r_pp;
+  void** r_vpp;
+  const char* const* r_ccpp;
   const char* r_charp;
   void* r_voidp;
   Fn r_fn;
